@@ -68,10 +68,11 @@ class Universe:
             T(op[1]).parent = T(op[2])
         elif k == 'setChildren':
             h = op[1]
+            arg = self.view(op[3]) if len(op) > 3 else L(op[2])
             if h >= self.m:
-                self.wbs[h - self.m].roots = L(op[2])
+                self.wbs[h - self.m].roots = arg
             else:
-                T(h).children = L(op[2])
+                T(h).children = arg
         elif k == 'chAppend':
             self.holder_list(op[1], op[-1] == 'stale').append(T(op[2]))
         elif k == 'chRemove':
@@ -85,9 +86,9 @@ class Universe:
         elif k == 'chReorder':
             self.holder_list(op[1], op[-1] == 'stale').reorder(list(op[2]))
         elif k == 'setPreds':
-            T(op[1]).predecessors = L(op[2])
+            T(op[1]).predecessors = self.view(op[3]) if len(op) > 3 else L(op[2])
         elif k == 'setSuccs':
-            T(op[1]).successors = L(op[2])
+            T(op[1]).successors = self.view(op[3]) if len(op) > 3 else L(op[2])
         elif k == 'prAppend':
             T(op[1]).predecessors.append(T(op[2]))
         elif k == 'prRemove':
@@ -152,6 +153,15 @@ class Universe:
         else:
             raise common.MachineryError(f'unknown op {k}')
 
+    def view(self, spec):
+        """a live list view of the library handed back to a setter (`t.children = t.children`, `a.predecessors = b.successors`, …)"""
+        _, k, kind = spec
+        if kind == 'children':
+            return self.wbs[k - self.m].roots if k >= self.m else self.objs[k].children
+        if kind == 'tasks':
+            return self.wbs[k - self.m].tasks if k >= self.m else self.objs[k].all_children
+        return self.objs[k % self.m].predecessors if kind == 'preds' else self.objs[k % self.m].successors
+
     def list_of(self, src):
         """the task list a list-level operation is applied to: children of a holder or all tasks of a WBS"""
         if src[0] == 'tasks':
@@ -162,6 +172,8 @@ class Universe:
         """fill in the state-dependent part of an op (the elements of the list it is applied to)"""
         op = list(op)
         k = op[0]
+        if k in ('setChildren', 'setPreds', 'setSuccs') and len(op) > 3:
+            op[2] = [self.u(t) for t in self.view(op[3])]
         if k in ('listLshift', 'listRshift', 'listSetParent'):
             op[1] = [self.u(t) for t in self.list_of(op[3])]
         elif k in ('wbsRemoveAll', 'chRemoveAll'):
@@ -185,7 +197,7 @@ class Universe:
 def model_op(op):
     """strip harness-only fields: what the Lean `Op` needs"""
     k = op[0]
-    if k in ('chAppend', 'chRemove'):
+    if k in ('chAppend', 'chRemove', 'setChildren', 'setPreds', 'setSuccs'):
         return op[:3]
     if k == 'chInsert':
         return op[:4]
@@ -249,6 +261,8 @@ def rand_op(u, rnd):
             ks = kids(h)
             rnd.shuffle(ks)
             l = ks[:rnd.randrange(0, len(ks) + 1)] + l[:1]
+        if rnd.random() < 0.12:
+            return ['setChildren', h, None, ['view', h if rnd.random() < 0.6 else holder(), rnd.choice(['children', 'children', 'tasks'])]]
         return ['setChildren', h, l]
     if k == 2:
         return ['chAppend', holder(), rt(), stale]
@@ -284,10 +298,12 @@ def rand_op(u, rnd):
         ks = kids(h)
         ids = [u.obj(rnd.choice(ks)).id if ks and rnd.random() < 0.85 else rnd.randrange(20) for _ in range(rnd.randrange(0, 4))]
         return ['chReorder', h, ids, stale]
-    if k == 8:
-        return ['setPreds', rt(), rl()]
-    if k == 9:
-        return ['setSuccs', rt(), rl()]
+    if k in (8, 9):
+        t = rt()
+        name = 'setPreds' if k == 8 else 'setSuccs'
+        if rnd.random() < 0.12:
+            return [name, t, None, ['view', t if rnd.random() < 0.6 else rt(), rnd.choice(['preds', 'succs', 'children'])]]
+        return [name, t, rl()]
     if k in (10, 23):
         return ['prAppend', rt(), rt()]
     if k in (11, 24):
@@ -467,6 +483,29 @@ def _directed_ops(u, rnd):
                 if x.wbs is not None and x.wbs is not t.wbs:
                     hier_calls(ut, U(x), 'cross-wbs')
                     add('cross-wbs', ['chAppend', m + u.wbs.index(t.wbs), U(x), 'fresh'])
+    # two NEW tasks that share an id, handed over in one children assignment (next to children that are kept)
+    free = [x for x in T if x.wbs is None and _rawp(x) is None]
+    for a in free:
+        for b in free:
+            if a is not b and a.id == b.id and U(a) < U(b):
+                for h in [U(x) for x in T if x is not a and x is not b][:4] + [m + i for i in range(len(u.wbs))]:
+                    ks = [U(c) for c in (u.wbs[h - m].roots if h >= m else u.objs[h].children) if c is not a and c is not b]
+                    add('two-new-twins', ['setChildren', h, [U(a), U(b)] + ks])
+                    add('two-new-twins', ['setChildren', h, ks[:1] + [U(a)] + ks[1:] + [U(b)]])
+                    add('two-new-twins', ['floordiv', h, [U(a), U(b)], False])
+    # a task that names a WBS as its owner without being listed in it (only an ill-behaved implementation gets here): bring a
+    # free task with the same id into that WBS, and attach the orphan to a member
+    for t in T:
+        if t.wbs is not None and t.wbs in u.wbs:
+            members = list(t.wbs.tasks)
+            if all(t is not y for y in members):
+                wi = m + u.wbs.index(t.wbs)
+                for x in free:
+                    if x.id == t.id and x is not t:
+                        add('stale-owner-orphan', ['chAppend', wi, U(x), 'fresh'])
+                for y in members[:3]:
+                    add('stale-owner-orphan', ['setParent', U(t), U(y)])
+                add('stale-owner-orphan', ['chAppend', wi, U(t), 'fresh'])
     # well-formed list edits (move with anchor, sort, reorder, insert) and, after them, calls through a façade taken earlier
     for h in list(range(m)) + [m + i for i in range(len(u.wbs))]:
         ks = [U(c) for c in (u.wbs[h - m].roots if h >= m else u.objs[h].children)]
@@ -522,6 +561,8 @@ def steer(u, op, rnd, p=0.35):
         r = rnd.choice(cands) if cands and rnd.random() < 0.5 else related(u, t, rnd)
         if r is not None:
             op[2] = r
+    elif k in ('setChildren', 'setPreds', 'setSuccs') and len(op) > 3:
+        pass
     elif k in ('setChildren', 'floordiv', 'lshift', 'rshift', 'setPreds', 'setSuccs'):
         r = related(u, op[1], rnd)
         if r is not None and isinstance(op[2], list):
@@ -645,6 +686,8 @@ def all_ops(m, nw, ids):
     for h in H:
         for l in lists2:
             ops.append(['setChildren', h, l])
+        ops.append(['setChildren', h, None, ['view', h, 'children']])
+        ops.append(['setChildren', h, None, ['view', H[0], 'children']])
         for st in ('fresh', 'stale'):
             for t in T:
                 ops.append(['chAppend', h, t, st])
